@@ -2,7 +2,8 @@
 """Reflection translator for C07: pygls.exceptions -> coq/Gen/ExcTable.v   (DESIGN 4.8)
 
 Imports pygls.exceptions from PYTHONPATH ($VERIF_REPO) and writes, for the base class and for every
-JsonRpcException subclass the module exports: name, CODE, MESSAGE, membership in `_EXCEPTIONS`,
+JsonRpcException subclass the module exports: name, CODE, MESSAGE, membership in the registry that
+`from_error` chooses from (the module-private set `_EXCEPTIONS`, located by harness/priv.py),
 whether `supports_code` is the inherited equality test or a range test (bounds found by probing and
 confirmed at the edges), and whether the constructor is the inherited one or a range-checking one.
 Fail-closed: anything the row format cannot express raises, the check then handles it as a broken
@@ -10,6 +11,8 @@ obligation (DESIGN 1.2(c)).  The finite theorems over the table (Proofs/Exceptio
 Props/C07.v) are re-checked by the kernel against the regenerated file on every run.
 """
 import importlib, inspect, os, sys
+sys.path.insert(0, os.path.dirname(os.path.abspath(__file__)))
+import priv
 
 ROOT = os.path.dirname(os.path.dirname(os.path.abspath(__file__)))
 OUT = os.path.join(ROOT, "coq", "Gen", "ExcTable.v")
@@ -50,7 +53,7 @@ def reflect(strict=True):
     be expressed becomes ("unknown",) instead of raising; never used to write the Coq table."""
     X = importlib.import_module("pygls.exceptions")
     base = X.JsonRpcException
-    registered = set(X._EXCEPTIONS)
+    registered = priv.registered_exceptions()
     classes = {}
     for k, v in vars(X).items():
         if inspect.isclass(v) and issubclass(v, base) and v is not base:
@@ -64,9 +67,9 @@ def reflect(strict=True):
     subs(base)
     for c in registered:
         if c is base:
-            raise TableError("the base class itself is registered in _EXCEPTIONS")
+            raise TableError("the base class itself is registered")
         if not (inspect.isclass(c) and issubclass(c, base)):
-            raise TableError(f"_EXCEPTIONS holds {c!r}, not a JsonRpcException subclass")
+            raise TableError(f"the registry holds {c!r}, not a JsonRpcException subclass")
         if classes.get(c.__name__) is not c:
             raise TableError(f"registered class {c.__name__} is not exported by pygls.exceptions")
 
